@@ -35,7 +35,8 @@ class C10(object):
                          'model.exogenous_redeclared_through_alternating_routes',
                          'model.judged.with_flat_paths_of_many_digit_values_as_list_objects',
                          'model.two_economies_with_the_same_sector_codes.judged',
-                         'same_text_read_again_after_the_horizon_was_set_on_the_solver.cases')
+                         'same_text_read_again_after_the_horizon_was_set_on_the_solver.cases',
+                         'block_with_a_reported_non_equation_line_and_the_horizon_set_on_the_solver.cases')
 
     def n_cases(self, tier):
         return 320 if tier == 'quick' else 30000
@@ -129,6 +130,8 @@ class C10(object):
         via = rng.choice(['line', 'line', 'solver', 'solver_override'])
         if m == 8:
             via = 'solver_override'       # ... and the same text has already been read once by this solver (see the run)
+        if m == 4:
+            via = rng.choice(['solver', 'solver_override'])     # ... and the block carries a heading line that is not an equation
         if spec['time'] is None and rng.random() < 0.3:
             spec['ics']['t'] = rng.choice([1990.0, 2000.0, -1.0, 0.5])     # initial condition on the DEFAULT time axis
         text = G.render(spec, with_params=(via == 'line'))
@@ -141,7 +144,10 @@ class C10(object):
         late = None
         if via == 'line' and maxtime >= 2 and rng.random() < 0.25:
             late = rng.randint(0, maxtime - 1)
+        if m == 4:
+            text = rng.choice(['Income block', '-- pasted from the appendix --', 'Model 3.1']) + '\n' + text
         case = {'kind': 'solve', 'spec': spec, 'text': text, 'late_horizon': late, 'same_text_read_before_the_horizon_is_set': m == 8,
+                'heading_line_with_horizon_on_solver': m == 4,
                 'via': via, 'reduction': (rng.random() < 0.5) or (zero_ic and m != 11), 'earlier': None, 'zero_ic': zero_ic}
         if via == 'line' and rng.random() < 0.35:
             # the same solver object has already parsed and solved another block with another horizon
@@ -308,6 +314,8 @@ class C10(object):
             except ValueError:
                 pass
             rec.count('same_text_read_again_after_the_horizon_was_set_on_the_solver.cases')
+        if case.get('heading_line_with_horizon_on_solver'):
+            rec.count('block_with_a_reported_non_equation_line_and_the_horizon_set_on_the_solver.cases')
         if case['via'] in ('solver', 'solver_override'):
             solver.MaxTime = T
             solver.ParameterErrorTolerance = 1e-9
@@ -514,6 +522,8 @@ class C10(object):
         if (len(g) + 2 * T) % 3 == 0:
             # the same variable declared exogenous several times, through the model by sector code AND through the sector
             # object in alternation: the declaration made last is the one that counts
+            # (a name is requested before the full codes exist, so the model has a temporary name to clean up at build time)
+            cty['HH'].AddVariable('WATCH', 'a reporting variable that names another sector', cty['GOV'].GetVariableName('DEM_GOOD'))
             junk1 = [g_ + 7.0 for g_ in g]
             junk2 = [g_ * 0.5 + 1.0 for g_ in g]
             mod.AddExogenous('GOV', 'DEM_GOOD', junk1)
